@@ -163,6 +163,9 @@ class AnnotationDAGBuilder:
                 self._add_node_pair_to_dag(get_node_id(input_node), get_node_id(current_node))
                 _set_visited(input_node)
 
+            if not input_marks_map and input_node == current_node:
+                self._dag.add_node(get_node_id(current_node))
+
             for idx, (kwarg_name, input_mark) in enumerate(input_marks_map):
 
                 if isinstance(input_mark, RecurrentSubGraphMark):
